@@ -128,4 +128,15 @@ CHECKS = {
   note='Two open findings weaken the colour terms (previous-record height) and mirror systems (unsigned indices) inside '
        'their regions only; near-afocal / zero-invariant systems counted, not judged.',
   design='3/C08'),
+ 'C07': dict(
+  technique='metamorphic testing: Hypothesis-generated lens x transformation (meridional mirrors, tilt about the centre '
+            'of curvature, dummy surface, wavelength change, global rescale, scale_system) x ray bundle, comparing the '
+            'two traces / first-order / Seidel results by the stated relation',
+  level='Six families of re-description are applied to generated lenses and the complete recorded traces (positions, '
+        'directions, optical path, intensity), focal data and Seidel sums are compared by the relation the property '
+        'states. Counter-example search; no reference model needed (the relation is the oracle).',
+  note='Rescale not claimed for decentred lenses (paraxial pupil data are not scale covariant there, documented); '
+       'Chebyshev surfaces carry the weakened relation of C07-chebyshev-normal; iterative surfaces compared at their '
+       'absolute intersection tolerance.',
+  design='3/C07'),
 }
